@@ -6,16 +6,19 @@ Variable digest : Type.
 Variable H : list byte -> digest.
 Variable deq : digest -> digest -> bool.
 Hypothesis deq_spec : forall a b, deq a b = true <-> a = b.
-Variable decode decode1 : list byte -> option (list byte).
+Variable decode : list (list byte) -> option (list byte).
+Variable decode1 : list byte -> option (list byte).
 
-Notation recv_v2 := (recv_v2 digest H deq decode).
+Variable early : option nat.
+Notation recv_v2 := (recv_v2_sched digest H deq decode early).   (* = recv_v2_old: the code before d144b66, any schedule *)
 Notation recv_v1 := (recv_v1 digest H deq decode1).
 
 (* the frames and digest line the receiver consumed *)
-Fixpoint frames_of (ls : list (line digest)) : list byte :=
+Fixpoint frames_of (ls : list (line digest)) : list (list byte) :=
   match ls with
   | LData _ [] :: _ => []
-  | LData _ f :: rest => f ++ frames_of rest
+  | LData _ f :: rest => f :: frames_of rest
+  | LKeep _ :: rest => frames_of rest
   | _ => []
   end.
 
@@ -23,24 +26,44 @@ Fixpoint md5_of (ls : list (line digest)) : option digest :=
   match ls with
   | LData _ [] :: LMd5 _ d :: _ => Some d
   | LData _ (_ :: _) :: rest => md5_of rest
+  | LKeep _ :: rest => md5_of rest
   | _ => None
   end.
 
-Lemma recv_v2_sound : forall ls size acc w,
-  recv_v2 size acc ls = Accept w ->
-  decode (acc ++ frames_of ls) = Some w /\ Z.of_nat (length w) = size /\ md5_of ls = Some (H w).
+(* what acceptance means: the stream in front of the finish flag decodes to w, the MD5 line is the
+   digest of w, and EITHER the file holds w and |w| is the announced size, OR the acknowledger won
+   the race (early = Some k): the stream is longer than announced and the file holds only its first
+   k bytes, size <= k <= |w| *)
+Lemma recv_v2_sched_sound : forall ls size acc written,
+  recv_v2 size acc ls = Accept written ->
+  exists w, decode (acc ++ frames_of ls) = Some w /\ md5_of ls = Some (H w) /\
+    ((written = w /\ Z.of_nat (length w) = size) \/
+     (exists k, early = Some k /\ written = firstn k w /\
+                (0 <= size < Z.of_nat (length w))%Z /\ (size <= Z.of_nat k)%Z /\ (k <= length w)%nat)).
 Proof.
-  induction ls as [|l ls IH]; intros size acc w A; cbn [Protocol.recv_v2] in A; [discriminate|].
-  destruct l as [f|d|]; try discriminate.
-  destruct f as [|b f].
-  - destruct (decode acc) as [w'|] eqn:D; [|discriminate].
-    destruct (Z.of_nat (length w') =? size)%Z eqn:S; [|discriminate].
-    destruct ls as [|[f2|d2|] rest]; try discriminate.
-    destruct (deq d2 (H w')) eqn:Q; [|discriminate].
-    injection A as <-. apply deq_spec in Q. apply Z.eqb_eq in S.
-    cbn [frames_of md5_of]. rewrite app_nil_r. subst d2. auto.
-  - specialize (IH size (acc ++ b :: f) w A). cbn [frames_of md5_of].
-    rewrite <- app_assoc in IH. exact IH.
+  induction ls as [|l ls IH]; intros size acc written A; cbn [Protocol.recv_v2_sched] in A; [discriminate|].
+  destruct l as [f|d| |]; try discriminate.
+  - destruct f as [|b f].
+    + destruct (decode acc) as [w|] eqn:D; [|discriminate].
+      assert (T : forall wr, md5_verdict digest H deq w wr ls = Accept written ->
+                  wr = written /\ md5_of (LData digest [] :: ls) = Some (H w)).
+      { intros wr V. unfold md5_verdict in V. destruct ls as [|[f2|d2| |] rest]; try discriminate.
+        destruct (deq d2 (H w)) eqn:Q; [|discriminate]. apply deq_spec in Q. subst d2.
+        injection V as <-. split; reflexivity. }
+      exists w. cbn [frames_of]. rewrite app_nil_r. split; [exact D|].
+      destruct (Z.of_nat (length w) =? size)%Z eqn:S.
+      * destruct (T w A) as [<- M]. split; [exact M|]. left. apply Z.eqb_eq in S. auto.
+      * destruct early as [k|] eqn:Ee; [|discriminate].
+        destruct ((0 <=? size)%Z && (size <? Z.of_nat (length w))%Z && (size <=? Z.of_nat k)%Z && (k <=? length w)%nat) eqn:C;
+          [|discriminate].
+        destruct (T (firstn k w) A) as [<- M]. split; [exact M|]. right. exists k.
+        apply andb_prop in C. destruct C as [C C4]. apply andb_prop in C. destruct C as [C C3].
+        apply andb_prop in C. destruct C as [C1 C2].
+        apply Z.leb_le in C1. apply Z.ltb_lt in C2. apply Z.leb_le in C3. apply Nat.leb_le in C4.
+        repeat split; auto.
+    + destruct (IH size (acc ++ [b :: f]) written A) as (w & D & M & R). exists w. cbn [frames_of md5_of].
+      rewrite <- app_assoc in D. auto.
+  - cbn [frames_of md5_of]. exact (IH size acc written A).
 Qed.
 
 (* protocol 1: what was written is the concatenation of the decoded frames consumed, and
@@ -52,18 +75,18 @@ Lemma recv_v1_sound : forall fuel ls size w0 w,
 Proof.
   induction fuel as [|fuel IH]; intros ls size w0 w A; cbn [Protocol.recv_v1] in A.
   - destruct (Z.of_nat (length w0) <? size)%Z eqn:L; [discriminate|].
-    destruct ls as [|[f|d|] rest]; try discriminate.
+    destruct ls as [|[f|d| |] rest]; try discriminate.
     destruct (deq d (H w0)) eqn:Q; [|discriminate]. injection A as <-.
     apply deq_spec in Q. apply Z.ltb_ge in L. exists d. repeat split; auto.
     + left; reflexivity.
     + exists []. rewrite app_nil_r. reflexivity.
   - destruct (Z.of_nat (length w0) <? size)%Z eqn:L.
-    + destruct ls as [|[f|d|] rest]; try discriminate.
+    + destruct ls as [|[f|d| |] rest]; try discriminate.
       destruct (decode1 f) as [dd|]; [|discriminate].
       destruct (IH rest size (w0 ++ dd) w A) as (d & I & E & Sz & tail & T).
       exists d. repeat split; auto. { right; exact I. }
       exists (dd ++ tail). rewrite T, app_assoc. reflexivity.
-    + destruct ls as [|[f|d|] rest]; try discriminate.
+    + destruct ls as [|[f|d| |] rest]; try discriminate.
       destruct (deq d (H w0)) eqn:Q; [|discriminate]. injection A as <-.
       apply deq_spec in Q. apply Z.ltb_ge in L. exists d. repeat split; auto.
       * left; reflexivity.
@@ -79,13 +102,81 @@ Definition unforged (src w : list byte) (d : digest) : Prop :=
   d = H w -> H w = H src.          (* the delivered digest value is not "accidentally right" *)
 Definition collision_free_on (src w : list byte) : Prop := H w = H src -> w = src.
 
-Theorem recv_v2_no_silent : forall ls size src w,
+(* protocol >= 2.  Two sufficient conditions, each closing the race: the saver's check decides
+   (early = None), or the SIZE message that was delivered is the true one. *)
+Theorem recv_v2_sched_no_silent_no_race : forall ls size src w,
+  early = None ->
   recv_v2 size [] ls = Accept w ->
   (forall d, md5_of ls = Some d -> unforged src w d) -> collision_free_on src w -> w = src.
+Proof.
+  intros ls size src w E A U C. destruct (recv_v2_sched_sound ls size [] w A) as (w' & _ & M & [[-> _]|(k & Ek & _)]).
+  - apply C. exact (U _ M eq_refl).
+  - rewrite E in Ek. discriminate.
+Qed.
+
+Theorem recv_v2_sched_no_silent_true_size : forall ls size src written,
+  size = Z.of_nat (length src) ->
+  recv_v2 size [] ls = Accept written ->
+  (* the two digest hypotheses, about the stream the frames decode to *)
+  (forall w d, decode (frames_of ls) = Some w -> md5_of ls = Some d -> unforged src w d) ->
+  (forall w, decode (frames_of ls) = Some w -> collision_free_on src w) -> written = src.
+Proof.
+  intros ls size src written Es A U C.
+  destruct (recv_v2_sched_sound ls size [] written A) as (w & D & M & [[-> _]|(k & _ & _ & [_ Lt] & _)]); cbn [app] in D.
+  - apply (C _ D). exact (U _ _ D M eq_refl).
+  - (* the stream is the source (digest), hence as long as announced: no room for the race *)
+    assert (w = src) by (apply (C _ D); exact (U _ _ D M eq_refl)). subst w. lia.
+Qed.
+
+End ProtocolProofs.
+
+(* ---------- the code as it is: the ctx.succ branch of recvFileDataV2 waits for the saver ---------- *)
+Lemma succ_waits_saver_src_ok : Consts.c02_succ_waits_saver = true. Proof. reflexivity. Qed.
+
+Section ProtocolFixed.
+Variable digest : Type.
+Variable H : list byte -> digest.
+Variable deq : digest -> digest -> bool.
+Hypothesis deq_spec : forall a b, deq a b = true <-> a = b.
+Variable decode : list (list byte) -> option (list byte).
+Variable early : option nat.
+
+Lemma recv_v2_eq : recv_v2 digest H deq decode early = recv_v2_sched digest H deq decode None.
+Proof. unfold recv_v2. rewrite succ_waits_saver_src_ok. reflexivity. Qed.
+
+Lemma recv_v2_old_eq : recv_v2_old digest H deq decode early = recv_v2_sched digest H deq decode early.
+Proof. reflexivity. Qed.
+
+(* acceptance: the stream in front of the finish flag decodes to exactly what the file holds, it is as
+   long as announced, and the MD5 line is its digest - for EVERY schedule *)
+Lemma recv_v2_sound : forall ls size acc w,
+  recv_v2 digest H deq decode early size acc ls = Accept w ->
+  decode (acc ++ frames_of digest ls) = Some w /\ Z.of_nat (length w) = size /\ md5_of digest ls = Some (H w).
+Proof.
+  intros ls size acc w A. rewrite recv_v2_eq in A.
+  destruct (recv_v2_sched_sound digest H deq deq_spec decode None ls size acc w A) as (w' & D & M & [[-> S]|(k & Ek & _)]);
+    [auto | discriminate].
+Qed.
+
+Theorem recv_v2_no_silent : forall ls size src w,
+  recv_v2 digest H deq decode early size [] ls = Accept w ->
+  (forall d, md5_of digest ls = Some d -> unforged digest H src w d) -> collision_free_on digest H src w -> w = src.
 Proof.
   intros ls size src w A U C. destruct (recv_v2_sound ls size [] w A) as (_ & _ & M).
   apply C. exact (U _ M eq_refl).
 Qed.
+End ProtocolFixed.
+
+Section ProtocolProofs2.
+Variable digest : Type.
+Variable H : list byte -> digest.
+Variable deq : digest -> digest -> bool.
+Hypothesis deq_spec : forall a b, deq a b = true <-> a = b.
+Variable decode1 : list byte -> option (list byte).
+Notation recv_v1 := (recv_v1 digest H deq decode1).
+Notation unforged := (unforged digest H).
+Notation collision_free_on := (collision_free_on digest H).
+Notation recv_v1_sound := (recv_v1_sound digest H deq deq_spec decode1).
 
 Theorem recv_v1_no_silent : forall fuel ls size src w,
   recv_v1 fuel size [] ls = Accept w ->
@@ -100,35 +191,54 @@ Qed.
 Notation send_v2 := (send_v2 digest deq).
 Notation send_final := (send_final digest deq).
 
+Definition is_keep (a : ack digest) : bool := match a with AKeep _ => true | _ => false end.
+
 Lemma send_final_sound : forall as_ size mine, send_final size mine as_ = true ->
   exists pre d rest, as_ = pre ++ AFinal digest size :: ADigest digest d :: rest /\ d = mine
-    /\ Forall (fun a => exists s, a = AFinal digest s /\ (s < size)%Z) pre.
+    /\ Forall (fun a => a = AKeep digest \/ exists s, a = AFinal digest s /\ (s < size)%Z) pre.
 Proof.
   induction as_ as [|a as_ IH]; intros size mine S; cbn [Protocol.send_final] in S; [discriminate|].
-  destruct a as [l s|s|d|]; try discriminate.
-  destruct (s >? size)%Z eqn:G; [discriminate|].
-  destruct (s =? size)%Z eqn:E.
-  - destruct as_ as [|[l2 s2|s2|d2|] rest]; try discriminate.
-    apply deq_spec in S. apply Z.eqb_eq in E. subst s.
-    exists [], d2, rest. repeat split; auto.
+  destruct a as [l s|s|d| |]; try discriminate.
+  - destruct (s >? size)%Z eqn:G; [discriminate|].
+    destruct (s =? size)%Z eqn:E.
+    + destruct as_ as [|[l2 s2|s2|d2| |] rest]; try discriminate.
+      apply deq_spec in S. apply Z.eqb_eq in E. subst s.
+      exists [], d2, rest. repeat split; auto.
+    + destruct (IH size mine S) as (pre & d & rest & -> & Ed & F).
+      exists (AFinal digest s :: pre), d, rest. repeat split; auto.
+      constructor; [|exact F]. right. exists s. split; [reflexivity|].
+      apply Z.eqb_neq in E. rewrite Z.gtb_ltb in G. apply Z.ltb_ge in G. lia.
   - destruct (IH size mine S) as (pre & d & rest & -> & Ed & F).
-    exists (AFinal digest s :: pre), d, rest. repeat split; auto.
-    constructor; [|exact F]. exists s. split; [reflexivity|].
-    apply Z.eqb_neq in E. rewrite Z.gtb_ltb in G. apply Z.ltb_ge in G. lia.
+    exists (AKeep digest :: pre), d, rest. repeat split; auto.
 Qed.
 
-Theorem send_v2_sound : forall sent as_ size mine, send_v2 size mine sent as_ = true ->
-  exists facks rest, as_ = facks ++ rest /\ length facks = length sent
-    /\ Forall2 (fun a n => exists s, a = AFrame digest n s) facks sent
+Theorem send_v2_sound : forall as_ sent size mine, send_v2 size mine sent as_ = true ->
+  exists facks rest, as_ = facks ++ rest
+    /\ Forall2 (fun a n => exists s, a = AFrame digest n s) (filter (fun a => negb (is_keep a)) facks) sent
     /\ send_final size mine rest = true.
 Proof.
-  induction sent as [|n sent IH]; intros as_ size mine S; cbn [Protocol.send_v2] in S.
-  - exists [], as_. repeat split; auto.
-  - destruct as_ as [|[l s|s|d|] rest]; try discriminate.
-    destruct (l =? n)%Z eqn:E; [|discriminate]. apply Z.eqb_eq in E. subst l.
-    destruct (IH rest size mine S) as (facks & rest' & -> & L & F & Fin).
-    exists (AFrame digest n s :: facks), rest'. repeat split; simpl; auto.
-    constructor; [exists s; reflexivity|exact F].
+  induction as_ as [|a as_ IH]; intros sent size mine S.
+  - destruct sent; cbn in S; [|discriminate]. exists [], []. repeat split; auto. constructor.
+  - destruct sent as [|n sent].
+    + exists [], (a :: as_). repeat split; [constructor|]. destruct a; exact S.
+    + cbn [Protocol.send_v2] in S. destruct a as [l s|s|d| |]; try discriminate.
+      * destruct (l =? n)%Z eqn:E; [|discriminate]. apply Z.eqb_eq in E. subst l.
+        destruct (IH sent size mine S) as (facks & rest' & -> & F & Fin).
+        exists (AFrame digest n s :: facks), rest'. repeat split; auto.
+        cbn [filter is_keep negb]. constructor; [exists s; reflexivity|exact F].
+      * destruct (IH (n :: sent) size mine S) as (facks & rest' & -> & F & Fin).
+        exists (AKeep digest :: facks), rest'. repeat split; auto.
 Qed.
 
-End ProtocolProofs.
+Notation send_v1 := (send_v1 digest deq).
+Theorem send_v1_sound : forall sent as_ mine, send_v1 mine sent as_ = true ->
+  exists d rest, as_ = map (AFinal digest) sent ++ ADigest digest d :: rest /\ d = mine.
+Proof.
+  induction sent as [|n sent IH]; intros as_ mine S; cbn [Protocol.send_v1] in S.
+  - destruct as_ as [|[l s|s|d| |] rest]; try discriminate. apply deq_spec in S. exists d, rest. auto.
+  - destruct as_ as [|[l s|s|d| |] rest]; try discriminate.
+    destruct (s =? n)%Z eqn:E; [|discriminate]. apply Z.eqb_eq in E. subst s.
+    destruct (IH rest mine S) as (d & rest' & -> & Ed). exists d, rest'. auto.
+Qed.
+
+End ProtocolProofs2.
